@@ -48,6 +48,7 @@ def check_C01(ctx, tier):
             _sample_paths(ctx, d, paths, lambda o: o.kind == 'return' and any(e.kind == 'DEL' for e in o.st.events))
     S.rule_S_LOAD_DUMP(ctx, ctx.repo)      # load/dump copy values under the same key (used by the inductive argument)
     K.rule_K_OWN(ctx, ctx.repo)            # the key of a call does not depend on earlier calls (no aliasing of module-level state)
+    A.rule_A_FNAME(ctx, ctx.repo, A.Cache(ctx.repo, unroll=1))    # two keys never share an archive entry through a lossy entry name
     ctx.require_instances('W-KEY', 36, 'key uses')
     ctx.require_instances('W-ARGS', 12, 'evaluation sites')
     ctx.assume('an entry (k -> v) in memory or archive satisfies v = f(a) for K(a) = k at the start of the call (inductive hypothesis)')
@@ -67,6 +68,9 @@ def check_C02(ctx, tier):
         if d.name == 'lfu_cache':
             _sample_paths(ctx, d, paths, lambda o: o.kind == 'return' and any(e.kind == 'EVAL' for e in o.st.events) and o.st.facts.get('archived'))
     S.rule_S_LOAD_DUMP(ctx, ctx.repo)      # load(k) finds what dump(k) wrote, at the cache level
+    ac = A.Cache(ctx.repo, unroll=1)
+    A.rule_A_FNAME(ctx, ctx.repo, ac)             # ... under an entry name that is the same in every session
+    A.rule_A_KEYERR_FOUND(ctx, ctx.repo, ac)      # ... and a stored None / 0 / '' is found, not reported as missing
     ctx.assume('cache.load(k) retrieves what cache.dump(k) stored for every backend (C03/C04/C08 decide their structural part)')
     ctx.assume('cache.archived() and purge have one value during a single wrapper call')
     return ('Compute-once on every path: at most one evaluation; evaluation only directly after a failed lookup of K which, '
@@ -270,7 +274,11 @@ def check_C03(ctx, tier):
     A.rule_A_OVR_BASE(ctx, ctx.repo, cache)
     A.rule_A_EFF(ctx, ctx.repo, cache)
     A.rule_A_KEYERR(ctx, ctx.repo, cache)
+    A.rule_A_KEYERR_FOUND(ctx, ctx.repo, cache)
+    A.rule_A_SQLFAIL(ctx, ctx.repo, cache)
     A.rule_A_EQ(ctx, ctx.repo, cache)
+    A.rule_A_NOCACHE(ctx, ctx.repo, cache)        # every answer comes from the store: no handle-local table that a later delete / store leaves stale
+    A.rule_A_FNAME(ctx, ctx.repo, cache)          # distinct keys keep distinct entry names (no new information loss in the key -> name map)
     A.rule_A_RED_COPY(ctx, ctx.repo, cache, parts=('copy',))     # copy(name) yields an archive opened with the same settings
     A.rule_A_PUBFAIL(ctx, ctx.repo, cache)
     A.rule_A_VIS_STAGE(ctx, ctx.repo, cache)
@@ -292,6 +300,7 @@ def check_C04(ctx, tier):
     A.rule_A_FACTORY_OPEN(ctx, ctx.repo, cache, do_open=False)
     A.rule_A_VIS_STAGE(ctx, ctx.repo, cache)       # a fresh handle sees no key that was never stored
     A.rule_A_ABS(ctx, ctx.repo, cache)
+    A.rule_A_FNAME(ctx, ctx.repo, cache)           # a later session finds an entry under the same name
     ctx.tables['primitives'] = A.PRIMITIVES
     ctx.assume('equality of decoded values, original key types under json and stale .pyc reuse of the import-based reader are not decided')
     return ('No persistent archive method outside __init__/__drop__ assigns instance state (no handle-local content cache); every reader '
@@ -339,6 +348,7 @@ def check_C20(ctx, tier):
         W.rule_W_LOCAL(ctx, d)
     RR.rule_R_NONE(ctx, ctx.repo)
     A.rule_A_RED_COPY(ctx, ctx.repo, cache)
+    A.rule_A_EFF(ctx, ctx.repo, cache, must_read_only=True)     # clone and original share storage only: every read goes to the store, not to a process-wide table
     S.rule_S_RED(ctx, ctx.repo)
     ctx.require_instances('W-RED', 12, 'decorator __reduce__ methods')
     ctx.assume("dill's by-value closure pickling and lock-step equality of the clone are not decided")
